@@ -61,6 +61,7 @@ pub fn runs_for(prop: Prop, tier: Tier) -> u64 {
         Tier::Quick => q,
         Tier::Thorough => match prop {
             Prop::C17 => q * 4,
+            Prop::C07 => q * 6,
             _ => q * 10,
         },
     }
